@@ -199,10 +199,14 @@ class Line:
     """one physical line: op token list (without the final hex) + its bytes without the line end"""
 
     def __init__(self, kind, fields, body):
-        self.kind, self.fields, self.body, self.eol = kind, fields, body, "lf"
+        self.kind, self.fields, self.body, self.eol, self.mark = kind, fields, body, "lf", None
 
     def op(self):
         return " ".join([self.kind] + self.fields + [self.eol, hx(self.body + EOLS[self.eol])])
+
+    def ops(self):
+        """the line as pieces: its byte-order mark (IniSpec.Line.mark / Header.mark), if any, then the line"""
+        return (["bom %s %s" % (self.mark, BOMS[self.mark].hex())] if self.mark else []) + [self.op()]
 
 
 def gen_entry(rng, chk, keys_pool, pad_to=None):
@@ -302,6 +306,14 @@ def gen_doc(rng, chk, size, lookups=0):
         chk.bump("bom:none")
         if lines and starts_with_bom(lines[0].body):
             bom = "utf8"
+    if len(lines) > 1 and rng.random() < 0.25:
+        # files pasted together: a byte-order mark at the start of lines in the middle of the file (the parser skips one
+        # on every line it reads); the first line carries the file's mark or its own, never both
+        chk.bump("doc:marks-inside")
+        for i, l in enumerate(lines):
+            if rng.random() < 0.3 and not (i == 0 and bom):
+                l.mark = rng.choice(sorted(BOMS))
+                chk.bump("mark:%s-before-%s" % (l.mark, l.kind) + ("-first-line" if i == 0 else ""))
     mode = rng.choice(["lf", "lf", "lf", "crlf", "mixed"])
     chk.bump("eol:" + mode)
     for l in lines:
@@ -313,7 +325,9 @@ def gen_doc(rng, chk, size, lookups=0):
     out = []
     for i, l in enumerate(lines):
         # the BOM counts on the first line that is actually written (an earlier one may have been dropped)
-        total = len(l.body) + len(EOLS[l.eol]) + (len(BOMS[bom]) if bom and not out else 0)
+        if bom and not out:
+            l.mark = None
+        total = len(l.body) + len(EOLS[l.eol]) + (len(BOMS[bom]) if bom and not out else 0) + (len(BOMS[l.mark]) if l.mark else 0)
         if total > MAXLINE:
             if l.eol == "crlf" and total - 1 <= MAXLINE:
                 l.eol = "lf"
@@ -331,7 +345,7 @@ def gen_doc(rng, chk, size, lookups=0):
     ops = []
     if bom:
         ops.append("bom %s %s" % (bom, BOMS[bom].hex()))
-    ops += [l.op() for l in out]
+    ops += [o for l in out for o in l.ops()]
     chk.bump("doc:sections=%d" % min(nsec, 6))
     tail = ["wfcheck", "gparse"]
     if lookups:
@@ -796,7 +810,7 @@ RAW_NAMES = [b"s", b"S", b"t", b"a", b"k", b"K", b"b", b"k1", b"", b"x y", b"\xe
 def directed_cases():
     """small files aimed at one clause each (all well-formed documents, so the spec column answers)"""
     def doc(lines, tail):
-        return [l.op() for l in lines] + ["wfcheck", "gparse"] + tail
+        return [o for l in lines for o in l.ops()] + ["wfcheck", "gparse"] + tail
 
     def H(n):
         return Line("hdr", ["-", "-", hx(n), "-", "-"], b"[" + n + b"]")
@@ -829,6 +843,27 @@ def directed_cases():
                     E(b"q", b" a b ", "d"), E(b"r", b"\t", "s"), E(b"t", b" ; # = ", "d"), E(b"u", b"a=b=c"), EC(b"w", b"x = 'y'", "n", b" ", b" ", 59, b"z"),
                     H(b"only-empty"), E(b"a", b""), EC(b"b", b"", "n", b" ", b" ", 35, b" c")],
                    ["gget %s %s 64 -7 %d %s" % (hx(a), hx(b), bd, z) for a in (b"s", b"only-empty") for b in (b"k", b"e", b"c", b"d", b"q", b"r", b"t", b"u", b"w", b"a", b"b") for bd in (0, 1)]))
+    # a byte-order mark at the start of lines inside the file (IniSpec.Line.mark / Header.mark): before an entry, a comment
+    # line, a blank line, a header, the last line without newline; every kind; the same through a named pipe; a first
+    # line with its own mark; a marked entry that repeats a key; a marked line without value
+    def M(line, mark):
+        line.mark = mark
+        return line
+    def C(t):
+        return Line("cmt", ["-", "59", hx(t)], b";" + t)
+    def B(ws):
+        return Line("blk", [hx(ws)], ws)
+    def last(line):
+        line.eol = "eof"
+        return line
+    mk = ["gget %s %s 64 -7 0 %s" % (hx(a), hx(b), z) for a in (b"s", b"t") for b in (b"k", b"j", b"e")]
+    marked = doc([H(b"s"), M(E(b"k", b"v"), "utf16be"), M(C(b" c = d"), "utf8"), M(B(b" "), "utf16le"), M(E(b"e", b""), "utf32be"), M(E(b"k", b"w", "d"), "utf8"),
+                  M(H(b"t"), "utf32be"), M(last(E(b"j", b"1")), "utf8")], mk)
+    out.append(marked)
+    out.append(["fifo 1"] + marked + ["fifo 0"])
+    for kind in sorted(BOMS):
+        out.append(doc([M(H(b"s"), kind), M(E(b"k", b"1"), kind), M(H(b"t"), kind), M(B(b""), kind), M(C(b""), kind), M(E(b"j", b"2"), kind)], mk))
+    out.append(["bom utf8 efbbbf"] + doc([H(b"s"), M(E(b"k", b"1"), "utf16le"), M(H(b"s"), "utf8"), M(E(b"j", b"2"), "utf16be")], mk))
     # repeated section headers: not merged, listed once each, look-ups see the first one in look-up order
     # (sections before the final one, latest first, then the final one)
     rep = ["gget %s %s 64 -7 0 %s" % (hx(a), hx(b), z) for a in (b"a", b"b") for b in (b"k", b"j", b"x")]
@@ -943,6 +978,6 @@ def run(chk):
         "the file is read back exactly as written (regular file on a local file system, fopen \"r\" does no translation on POSIX)",
         "allocation never fails in this check (C18 covers failure)",
         "fopen (directory, \"r\") succeeds and the first fgets on it fails (Linux/glibc): a directory parses as an empty file (op lifec, segment D)",
-        "the spec column is produced for documents satisfying PV.IniSpec.WF only: no NUL, lines <= 1024 bytes, no line that starts like a byte-order mark",
+        "the spec column is produced for documents satisfying PV.IniSpec.WF only: no NUL, lines <= 1024 bytes (mark included), at most one byte-order mark at the start of a line",
     ]
     return finish(chk)
